@@ -379,9 +379,28 @@ theorem kind_code_b1 {k : Kind} (h1 : k.code ≠ "b1") (h2 : k.code ≠ "rec") :
     refine .inl ⟨dt, rfl, ?_⟩
     intro e; subst e; exact h1 rfl
 
+/-- a float `dtype_out` on a numeric or wide-mask first map: the first map's sentinel is a number -/
+theorem typed_dtypeOut {first : MapObj} {d : DT} {s : String} (hf : first.Typed)
+    (hd : parseDTCode s = some d) (hdb : d ≠ .bool)
+    (c1 : first.kind.code ≠ "b1") (c2 : first.kind.code ≠ "rec") :
+    (Kind.plain d).typed first.sent := by
+  have hdr := parseDTCode_real hd
+  unfold MapObj.Typed at hf
+  rcases kind_code_b1 c1 c2 with ⟨dt, e, hne⟩ | ⟨n, e⟩
+  · rw [e] at hf
+    have hnb : first.sent.isBoolV = false := by
+      cases hb : first.sent.isBoolV with
+      | false => rfl
+      | true => exact absurd ((Kind.typed_plain_iff hf).2.1 hb) hne
+    exact typed_numeric_sent hdr hnb hdb
+  · rw [e] at hf
+    exact typed_numeric_sent hdr hf hdb
+
 /-- the result of a union / intersection operation is typed, provided a float64 result
     (`dtype_out`) is only requested for a numeric or wide-mask first map — which the dispatch on
-    the first map's dtype code guarantees (the operation table has no boolean or record rows) -/
+    the first map's dtype code guarantees (the operation table has no boolean or record rows).
+    Both the regular result and the empty-coverage early return (`make_empty_like` with
+    `dtype_out`) carry the FIRST map's sentinel into the output kind. -/
 theorem Typed.apiMultiOp {row : OpRow} {maps : List MapObj} {m' : MapObj}
     (h : ∀ m ∈ maps, m.Typed)
     (hnb : parseDTCode row.dtypeOut ≠ some .bool)
@@ -391,25 +410,21 @@ theorem Typed.apiMultiOp {row : OpRow} {maps : List MapObj} {m' : MapObj}
   obtain ⟨first, rest, rfl, _, _, h3, _, hcase⟩ := WFApi.apiMultiOp_ok hr
   have hf : first.Typed := h first List.mem_cons_self
   rcases hcase with ⟨hk, _, _⟩ | ⟨hk, _, _⟩
-  · exact (MapObj.Typed_congr hk h3).2 hf
+  · unfold MapObj.Typed
+    rw [hk, h3]
+    unfold multiKindE
+    split
+    · rename_i d hd
+      obtain ⟨c1, c2⟩ := hrow d hd first rfl
+      exact typed_dtypeOut hf hd (fun e => hnb (by rw [hd, e])) c1 c2
+    · exact hf
   · unfold MapObj.Typed
     rw [hk, h3]
     unfold multiKindOut
     split
     · rename_i d hd
       obtain ⟨c1, c2⟩ := hrow d hd first rfl
-      have hdr := parseDTCode_real hd
-      have hdb : d ≠ .bool := fun e => hnb (by rw [hd, e])
-      unfold MapObj.Typed at hf
-      rcases kind_code_b1 c1 c2 with ⟨dt, e, hne⟩ | ⟨n, e⟩
-      · rw [e] at hf
-        have hnb : first.sent.isBoolV = false := by
-          cases hb : first.sent.isBoolV with
-          | false => rfl
-          | true => exact absurd ((Kind.typed_plain_iff hf).2.1 hb) hne
-        exact typed_numeric_sent hdr hnb hdb
-      · rw [e] at hf
-        exact typed_numeric_sent hdr hf hdb
+      exact typed_dtypeOut hf hd (fun e => hnb (by rw [hd, e])) c1 c2
     · rename_i hp _
       unfold MapObj.Typed at hf
       rw [hp] at hf
